@@ -303,12 +303,22 @@ func (l *lexer) tryLexOperator() bool {
 		if strings.HasPrefix(l.input[l.pos+1:], "}") {
 			return false
 		}
-	} else if isAlpha(op) {
-		// If operator is alphabetic (such as "in" or "is"),
+	} else if c := op[len(op)-1]; (c >= 'a' && c <= 'z') || (c >= 'A' && c <= 'Z') {
+		// If operator ends in a letter (such as "in", "is" or "not in"),
 		// we avoid matching "include" or functions like "is_currently_on"
 		// For such operators to be valid, they must not run into a name character.
 		if next := l.pos + len(op); next < len(l.input) && isName(l.input[next:next+1]) {
-			return false
+			// "not in_stock": the first word of a two-word operator may be an operator itself
+			i := strings.Index(op, " ")
+			if i <= 0 {
+				return false
+			}
+			if _, ok := unaryOperators[op[:i]]; !ok {
+				if _, ok := binaryOperators[op[:i]]; !ok {
+					return false
+				}
+			}
+			op = op[:i]
 		}
 	} else if op == delimTrimWhitespace {
 		rest := l.input[l.pos+1:]
@@ -319,16 +329,6 @@ func (l *lexer) tryLexOperator() bool {
 	l.pos += len(op)
 	l.emit(tokenOperator)
 
-	return true
-}
-
-// Check if a string only contains alphabetic characters
-func isAlpha(s string) bool {
-	for _, r := range s {
-		if !unicode.IsLetter(r) {
-			return false
-		}
-	}
 	return true
 }
 
